@@ -238,6 +238,35 @@ def a01_constructors(ctx, groups=None, rule_id='A01', title=None, labels=None, m
     return r
 
 
+def a01s_saturated_capacity(ctx, fs='default'):
+    """C20: a saturating addition whose result can sit at the capacity of its integer type and is then used as a number (converted, added,
+    stored) gives a width-dependent value: 255 on the default build where the wide builds compute 256."""
+    f = ctx.facts(fs)
+    m = Model(f)
+    r = RuleResult('A01s', 'no constructor / init / validate uses, as a number, the result of a saturating addition that can have saturated at the '
+                           'integer type\'s capacity for an accepted parameter (comparing it in order to reject the parameter is fine)')
+    n = nsat = 0
+    seen = set()
+    for group, label, bid in entry_points(m):
+        if group not in ('method-new', 'ma-init', 'config-init', 'window-ctor'):
+            continue
+        n += 1
+        ex, outs, status, dt = run_entry(f, bid)
+        r.inst(label, bool(getattr(ex, 'saturations', None)))
+        nsat += len(set(getattr(ex, 'saturations', []) or []))
+        for fn, what, how, file_ in getattr(ex, 'saturated_uses', []) or []:
+            short = fn.split(' as ')[0].lstrip('<').rsplit('::', 1)[-1] if fn.startswith('<') else fn.rsplit('::', 2)[-2]
+            key = '%s|saturating_add|%s' % (fn, how.split(' ')[0])
+            if key in seen:
+                continue
+            seen.add(key)
+            r.violate(key, '%s: %s can have saturated at the capacity of its type for an accepted parameter and is then %s: the value depends on the PeriodType width '
+                           '(reached from %s)' % (fn, what, how, label), file_, None)
+    r.info['saturating additions that can saturate (all only compared)'] = nsat
+    r.floor('entry points', 90, n)
+    return r
+
+
 # ---------------------------------------------------------------------------------------
 # clause (c): documented too-small lengths give Err
 
